@@ -47,6 +47,8 @@ pub struct Ctx {
     announce_dir: Option<String>, pub case_timeout: Duration,
     /// called just before the process exits (flushes the reference trace)
     pub at_exit: fn(),
+    /// deterministic sample of this layer's cases, emitted for replay on the CLI layer (VERIF_CLI_CASES)
+    cli_cases: Mutex<Option<std::io::BufWriter<std::fs::File>>>,
 }
 
 pub fn mix(seed: u64, a: u64) -> u64 { // splitmix64: deterministic filler values only
@@ -69,12 +71,13 @@ impl Ctx {
         }
         let seed = std::env::var("VERIF_SEED").ok().and_then(|s| s.parse::<i64>().ok()).unwrap_or(0) as u64;
         let threads = std::env::var("VERIF_THREADS").ok().and_then(|s| s.parse().ok()).unwrap_or_else(|| std::thread::available_parallelism().map(|n| n.get()).unwrap_or(8)).min(MAX_THREADS).max(1);
+        let emit = if layer == "L" && only.is_none() { std::env::var("VERIF_CLI_CASES").ok().and_then(|p| std::fs::File::create(p).ok()).map(std::io::BufWriter::new) } else { None };
         Ctx { property: property.into(), layer: layer.into(), tier, seed, threads, only, panic_only: false, start: Instant::now(),
             evaluations: AtomicU64::new(0), states: AtomicU64::new(0), transitions: AtomicU64::new(0), traces: AtomicU64::new(0),
             classes: Default::default(), samples: Default::default(), violations: Default::default(), violations_total: AtomicU64::new(0), sigs_seen: Default::default(),
             sweeps: Default::default(), guards: Default::default(), engine_errors: Default::default(), notes: Default::default(), extra: Default::default(),
             slots: (0..MAX_THREADS).map(|_| (AtomicU64::new(0), AtomicU64::new(0), AtomicUsize::new(0))).collect(),
-            at_exit: || {}, announce_dir: std::env::var("VERIF_ANNOUNCE").ok(), case_timeout: Duration::from_secs(std::env::var("VERIF_CASE_TIMEOUT").ok().and_then(|s| s.parse().ok()).unwrap_or(30)) }
+            cli_cases: Mutex::new(emit), at_exit: || {}, announce_dir: std::env::var("VERIF_ANNOUNCE").ok(), case_timeout: Duration::from_secs(std::env::var("VERIF_CASE_TIMEOUT").ok().and_then(|s| s.parse().ok()).unwrap_or(30)) }
     }
     pub fn quick(&self) -> bool { self.tier == Tier::Quick }
     pub fn thorough(&self) -> bool { self.tier == Tier::Thorough }
@@ -111,6 +114,12 @@ impl Ctx {
             let mut v = self.violations.lock().unwrap();
             if v.len() < 400 { v.push(json!({"sig": sig, "what": what.into(), "replay": replay})); }
         }
+    }
+    /// emits case `index` of `sweep` for the CLI layer when `index % stride == 0` (a deterministic sample)
+    pub fn emit_cli(&self, sweep: &str, index: u64, stride: u64, case: impl FnOnce() -> Value) {
+        if index % stride.max(1) != 0 { return; }
+        let mut g = self.cli_cases.lock().unwrap();
+        if let Some(w) = g.as_mut() { use std::io::Write; let _ = writeln!(w, "{}", json!({"sweep": sweep, "index": index, "case": case()})); }
     }
     pub fn violations_so_far(&self) -> u64 { self.violations_total.load(Ordering::Relaxed) }
 
@@ -190,6 +199,7 @@ impl Ctx {
     /// writes the part file named by VERIF_PART (or stdout) and exits: 0 nothing found, 1 violations, 2 engine error
     pub fn finish_and_exit(&self) -> ! {
         (self.at_exit)();
+        if let Some(w) = self.cli_cases.lock().unwrap().as_mut() { use std::io::Write; let _ = w.flush(); }
         let part = self.part_json();
         let text = serde_json::to_string(&part).unwrap();
         match std::env::var("VERIF_PART") { Ok(p) => std::fs::write(&p, text).expect("write part"), Err(_) => println!("{text}") }
@@ -209,4 +219,16 @@ pub fn deviations(dims: &[usize], d: usize) -> Vec<Vec<usize>> {
     let mut out = Vec::new();
     for n in 0..=d.min(dims.len()) { rec(dims, 0, n, &mut vec![0; dims.len()], &mut out); }
     out
+}
+
+/// Content classes for "arbitrary bytes" inputs: a core with each of a set of prefixes / suffixes that text-oriented code
+/// tends to treat specially (byte order marks, hex prefix, white space, NUL, line ends, JSON / shell lead-ins).
+pub fn affix_classes(core: &[u8]) -> Vec<(String, Vec<u8>)> {
+    let pre: [(&str, &[u8]); 14] = [("utf8-bom", b"\xef\xbb\xbf"), ("utf16le-bom", b"\xff\xfe"), ("utf16be-bom", b"\xfe\xff"), ("0x", b"0x"), ("space", b" "), ("newline", b"\n"), ("tab", b"\t"), ("nul", b"\0"), ("crlf", b"\r\n"), ("hash", b"#"), ("brace", b"{"), ("quote", b"\""), ("dash", b"-"), ("bom-then-space", b"\xef\xbb\xbf ")];
+    let suf: [(&str, &[u8]); 8] = [("newline", b"\n"), ("crlf", b"\r\n"), ("space", b" "), ("nul", b"\0"), ("two-newlines", b"\n\n"), ("utf8-bom", b"\xef\xbb\xbf"), ("tab", b"\t"), ("ctrl-z", b"\x1a")];
+    let mut v = Vec::new();
+    for (n, p) in pre { v.push((format!("prefix-{n}"), [p, core].concat())); v.push((format!("only-{n}"), p.to_vec())); }
+    for (n, x) in suf { v.push((format!("suffix-{n}"), [core, x].concat())); }
+    v.push(("bom-both-ends".into(), [b"\xef\xbb\xbf".as_slice(), core, b"\xef\xbb\xbf"].concat())); v.push(("space-both-ends".into(), [b" ".as_slice(), core, b" "].concat()));
+    v
 }
